@@ -66,7 +66,8 @@ def run(ctx):
     if mp is None:
         res.error('Module::parse not found')
         return res
-    body = F.mir[mp]
+    from mirinline import inline_local
+    body = inline_local(F, mp)
     src = calls_to(body, lambda n: n.endswith('get_wasmparser_wasm_features'))
     if len(src) != 1:
         res.bad('parse/feature-source', 'Module::parse must obtain the feature set exactly once (found %d)' % len(src))
